@@ -2,11 +2,12 @@
 discipline), A11 (global effects, thread confinement)."""
 import ast
 
-from ..kfun import Ev, calls_in, contains, eval_function, is_call_to, paths, same, strip_seq
+from ..kfun import Ev, P, calls_in, contains, eval_function, is_call_to, paths, same, strip_seq
 from ..model import AnalysisError, norm_text
 from ..regs import class_mro
 from ..ruleir import leaves
 from ..terms import children, walk
+from ..tutil import atom, cases, expand, specialise, unseq
 from .common import loc_of
 
 TR = "autograd.tracer"
@@ -21,9 +22,8 @@ def trace_fn(ctx, world):
     ctx.describe("A13.unbox/trace", "trace(): the traced function is called on a box made from x with the id yielded by new_trace; dependence is decided by *equality* of the result's trace id with the start box's; the dependent path returns the UNBOXED value and the node; the independent path returns the function's own result and None")
     r, syms, m, node, sc = eval_function(world, TR, "trace")
     loc = loc_of(m, node)
-    r = strip_seq(r)
     q = "autograd.tracer.trace"
-    if r is None or r.op != "if":
+    if r is None:
         ctx.fail("A13.unbox", "trace:shape", f"{q}:shape", loc, "trace() no longer decides between a dependent and an independent result", "any differentiation")
         return
     x, start_node, fun = syms.get("x"), syms.get("start_node"), syms.get("fun")
@@ -46,31 +46,54 @@ def trace_fn(ctx, world):
     def is_end(t):
         return t.op == "call" and t.fn is fun and len(t.args) == 1 and t.args[0] is start
 
-    # condition: isbox(end) and end._trace == start._trace
-    cond = r.cond
-    eqs = [t for t in walk(cond) if t.op == "cmp" and ("_trace" in (getattr(t.l, "name", None) if t.l.op == "attr" else None, getattr(t.r, "name", None) if t.r.op == "attr" else None))]
-    good = False
-    for c in eqs:
-        sides = [c.l, c.r]
-        ends = [s for s in sides if _attr_of(s, "_trace") and is_end(s.obj)]
-        starts = [s for s in sides if (_attr_of(s, "_trace") and s.obj is start) or same(s, tid)]
-        if ends and starts and c.opname == "Eq":
-            good = True
-    isbox_ok = contains(cond, lambda t: is_call_to(t, "autograd.tracer.isbox") and t.args and is_end(t.args[0]))
-    if good and isbox_ok and cond.op == "bool" and cond.opname == "and":
-        ctx.ob("A12.top", "trace:dependence decided by isbox(end) and end._trace == start._trace", True, loc, sample=str(cond)[:160])
+    # condition: isbox(end) and end._trace == start._trace   (any polarity / nesting of the test)
+    def is_eq(a):
+        if not (a.op == "cmp" and a.opname == "Eq"):
+            return False
+        sides = [a.l, a.r]
+        ends = [s_ for s_ in sides if _attr_of(s_, "_trace") and is_end(s_.obj)]
+        starts = [s_ for s_ in sides if (_attr_of(s_, "_trace") and s_.obj is start) or same(s_, tid)]
+        return bool(ends and starts)
+
+    def is_isbox(a):
+        return is_call_to(a, "autograd.tracer.isbox") and len(a.args) == 1 and is_end(a.args[0])
+
+    def is_conj(a):
+        return a.op == "bool" and a.opname == "and" and len(a.vals) == 2 and any(is_isbox(atom(v)[0]) and atom(v)[1] for v in a.vals) and any(is_eq(atom(v)[0]) and atom(v)[1] for v in a.vals)
+
+    cs = cases(unseq(r))
+    dep, indep, odd = [], [], []
+    for c in cs:
+        if c.pol(is_isbox) is True and c.pol(is_eq) is True:
+            dep.append(c)
+        elif c.pol(is_conj) is False or c.pol(is_isbox) is False or (c.pol(is_isbox) is True and c.pol(is_eq) is False):
+            indep.append(c)
+        else:
+            odd.append(c)
+    if dep and indep and not odd:
+        ctx.ob("A12.top", "trace:dependence decided by isbox(end) and end._trace == start._trace", True, loc, sample=str(dep[0].facts)[:160])
     else:
-        ctx.fail("A12.top", "trace:dependence test", f"{q}:dependence-test", loc, f"dependence of the output is not decided by `isbox(end) and end._trace == start._trace` (found: {str(cond)[:120]})", "an inner differentiation whose result depends only on an outer variable (perturbation confusion), or an outer box returned unchanged")
+        found = "; ".join(str(c.facts)[:80] for c in (odd or cs)[:2])
+        ctx.fail("A12.top", "trace:dependence test", f"{q}:dependence-test", loc, f"dependence of the output is not decided by `isbox(end) and end._trace == start._trace` (found: {found})", "an inner differentiation whose result depends only on an outer variable (perturbation confusion), or an outer box returned unchanged")
+        dep = dep or [c for c in odd if c.leaf.op == "tuple" and len(c.leaf.elts) == 2 and _attr_of(c.leaf.elts[0], "_value")]
+        indep = indep or [c for c in odd if c not in dep]
     # dependent path
-    then, other = strip_seq(r.then), strip_seq(r.other)
-    if then.op == "tuple" and len(then.elts) == 2 and _attr_of(then.elts[0], "_value") and is_end(then.elts[0].obj) and _attr_of(then.elts[1], "_node") and is_end(then.elts[1].obj):
+    def dep_ok(then):
+        return then.op == "tuple" and len(then.elts) == 2 and _attr_of(then.elts[0], "_value") and is_end(then.elts[0].obj) and _attr_of(then.elts[1], "_node") and is_end(then.elts[1].obj)
+
+    def indep_ok(other):
+        return other.op == "tuple" and len(other.elts) == 2 and is_end(other.elts[0]) and other.elts[1].op == "const" and other.elts[1].value is None
+
+    if dep and all(dep_ok(c.leaf) for c in dep):
         ctx.ob("A13.unbox", "trace:dependent path returns (end._value, end._node)", True, loc)
     else:
-        ctx.fail("A13.unbox", "trace:dependent return", f"{q}:dependent-return", loc, f"the dependent path does not return (end_box._value, end_box._node) (found {str(then)[:100]})", "every differentiation: the primal value handed back contains a tracer object / wrong node")
-    if other.op == "tuple" and len(other.elts) == 2 and is_end(other.elts[0]) and other.elts[1].op == "const" and other.elts[1].value is None:
+        found = str(dep[0].leaf)[:100] if dep else "no dependent path"
+        ctx.fail("A13.unbox", "trace:dependent return", f"{q}:dependent-return", loc, f"the dependent path does not return (end_box._value, end_box._node) (found {found})", "every differentiation: the primal value handed back contains a tracer object / wrong node")
+    if indep and all(indep_ok(c.leaf) for c in indep):
         ctx.ob("A13.unbox", "trace:independent path returns (fun's result, None)", True, loc)
     else:
-        ctx.fail("A13.unbox", "trace:independent return", f"{q}:independent-return", loc, f"the independent path does not return (result, None) (found {str(other)[:100]})", "a function whose output does not depend on the input")
+        found = str(indep[0].leaf)[:100] if indep else "no independent path"
+        ctx.fail("A13.unbox", "trace:independent return", f"{q}:independent-return", loc, f"the independent path does not return (result, None) (found {found})", "a function whose output does not depend on the input")
 
 
 # --------------------------------------------------------------------------------------------- primitive wrapper
@@ -79,7 +102,6 @@ def wrapper(ctx, world):
     r, syms, m, node, sc = eval_function(world, TR, "primitive.f_wrapped")
     loc = loc_of(m, node)
     q = "autograd.tracer.primitive.f_wrapped"
-    r = strip_seq(r)
     args = syms.get("args")
     outer_sc = sc.parent
     f_raw = outer_sc.lookup("f_raw") if outer_sc else None
@@ -97,100 +119,112 @@ def wrapper(ctx, world):
             return True
         return t.op == "closure" and t.fnode is node
 
-    if r is None or r.op != "if":
-        ctx.fail("A13.unbox", "wrapper:shape", f"{q}:shape", loc, "f_wrapped no longer branches on the presence of boxed arguments", "any call of a primitive")
+    if r is None:
+        ctx.fail("A13.unbox", "wrapper:shape", f"{q}:shape", loc, "f_wrapped returns nothing", "any call of a primitive")
         return
+    kw = syms.get("kwargs")
+    KEEP = {"autograd.tracer.find_top_boxed_args", "autograd.tracer.new_box", "autograd.util.subvals", "autograd.tracer.getval", "autograd.tracer.isbox"}
+    r = unseq(expand(world.ev, r, KEEP))
     ftb = [t for t in walk(r) if is_call_to(t, "autograd.tracer.find_top_boxed_args")]
     if not ftb:
         raise AnalysisError("f_wrapped no longer calls find_top_boxed_args")
-    call = ftb[0]
+    ftb_ok = all(len(c.args) == 1 and c.args[0] is args and not c.kw for c in ftb)
     comp = lambda i: (lambda t: t.op == "sub" and t.obj.op == "call" and is_call_to(t.obj, "autograd.tracer.find_top_boxed_args") and t.idx.op == "const" and t.idx.value == i)
     is_boxed, is_trace, is_ctor = comp(0), comp(1), comp(2)
-    ok_args = len(call.args) == 1 and (call.args[0] is args or (call.args[0].op == "star" and call.args[0].x is args))
-    okc = is_boxed(r.cond)
-    if okc and len(call.args) == 1 and call.args[0] is args:
+
+    def star_of(t, pred):
+        return t.op == "star" and pred(t.x)
+
+    def unwrap_seq(t):
+        # list(<comp>) / tuple(<comp>) / the comprehension itself
+        if t.op == "call" and t.fn.op == "ref" and t.fn.ref.qual in ("builtins.tuple", "builtins.list") and len(t.args) == 1 and not t.kw:
+            return t.args[0]
+        return t
+
+    def over_boxed(t, elt_pred):
+        """t enumerates elt_pred(argnum-term, box-term) for (argnum, box) in boxed_args, in order, unfiltered"""
+        c = unwrap_seq(t)
+        if c.op != "comp" or c.conds or c.kind in ("SetComp", "DictComp") or not is_boxed(c.src):
+            return False
+        is_el = lambda x, i: x.op == "sub" and x.obj.op == "iterelem" and x.obj.src is c.src and x.idx.op == "const" and x.idx.value == i
+        return elt_pred(c.elt, lambda x: is_el(x, 0), lambda x: is_el(x, 1))
+
+    def is_argvals(t):
+        if not (is_call_to(t, "autograd.util.subvals") and len(t.args) == 2 and not t.kw and t.args[0] is args):
+            return False
+        return over_boxed(t.args[1], lambda e, num, box: e.op in ("tuple", "list") and len(e.elts) == 2 and num(e.elts[0]) and _attr_of(e.elts[1], "_value") and box(e.elts[1].obj))
+
+    def is_reentry(t):
+        return t.op == "call" and is_self(t.fn) and len(t.args) == 1 and star_of(t.args[0], is_argvals) and not t.kw and len(t.dstar) == 1 and t.dstar[0] is kw
+
+    def is_notrace_test(a):
+        return a.op == "cmp" and a.opname == "In" and is_self(a.l) and a.r.op == "sub" and a.r.obj.op == "ref" and a.r.obj.ref.qual == "autograd.tracer.notrace_primitives" and is_ctor(a.r.idx)
+
+    cs = cases(r)
+    undecided = [c for c in cs if c.pol(is_boxed) is None]
+    if not undecided and ftb_ok:
         ctx.ob("A13.unbox", "wrapper:branches on boxed_args of find_top_boxed_args(args)", True, loc)
     else:
         ctx.fail("A13.unbox", "wrapper:branch", f"{q}:branch", loc, "the wrapper does not branch on the boxed_args component of find_top_boxed_args(args)", "mixed boxed/plain arguments")
+    plain = [c for c in cs if c.pol(is_boxed) is False]
+    traced = [c for c in cs if c.pol(is_boxed) is True]
     # --- no boxes: f_raw(*args, **kwargs)
-    other = strip_seq(r.other)
-    kw = syms.get("kwargs")
-    def star_of(t, v):
-        return t.op == "star" and t.x is v
-    good = other.op == "call" and other.fn is f_raw and len(other.args) == 1 and star_of(other.args[0], args) and len(other.dstar) == 1 and other.dstar[0] is kw
-    if good:
+    def is_plain_call(t):
+        return t.op == "call" and t.fn is f_raw and len(t.args) == 1 and star_of(t.args[0], lambda x: x is args) and not t.kw and len(t.dstar) == 1 and t.dstar[0] is kw
+    if plain and all(is_plain_call(c.leaf) for c in plain):
         ctx.ob("A13.unbox", "wrapper:no boxes -> f_raw(*args, **kwargs) unchanged", True, loc)
     else:
-        ctx.fail("A13.unbox", "wrapper:plain call", f"{q}:plain-call", loc, f"with no boxed argument the wrapper does not return f_raw(*args, **kwargs) (found {str(other)[:100]})", "calling any autograd.numpy function on plain inputs")
+        found = str(plain[0].leaf)[:100] if plain else "no such path"
+        ctx.fail("A13.unbox", "wrapper:plain call", f"{q}:plain-call", loc, f"with no boxed argument the wrapper does not return f_raw(*args, **kwargs) (found {found})", "calling any autograd.numpy function on plain inputs")
     # --- argvals = subvals(args, [(argnum, box._value) for argnum, box in boxed_args])
-    then = strip_seq(r.then)
-    sv = [t for t in walk(then) if is_call_to(t, "autograd.util.subvals")]
-    argvals = None
-    for t in sv:
-        if len(t.args) == 2 and t.args[0] is args and t.args[1].op == "comp":
-            c = t.args[1]
-            if is_boxed(c.src) and c.elt.op == "tuple" and len(c.elt.elts) == 2:
-                a, b = c.elt.elts
-                # a = elem[0], b = elem[1]._value
-                if a.op == "sub" and a.obj.op == "iterelem" and a.idx.value == 0 and _attr_of(b, "_value") and b.obj.op == "sub" and b.obj.idx.value == 1 and b.obj.obj.op == "iterelem":
-                    argvals = t
-    if argvals is not None:
+    have_argvals = any(is_argvals(t) for c in traced for t in walk(c.leaf))
+    if have_argvals:
         ctx.ob("A13.unbox", "wrapper:argvals = args with exactly the top boxes replaced by ._value", True, loc)
     else:
         ctx.fail("A13.unbox", "wrapper:argvals", f"{q}:argvals", loc, "argvals is not subvals(args, [(argnum, box._value) for argnum, box in boxed_args]) (one level of unboxing of exactly the top-trace boxes)", "nested differentiation: a recursive getval would also strip the outer level's boxes (inner results no longer differentiable by the outer level)")
         return
-    def is_reentry(t):
-        return t.op == "call" and is_self(t.fn) and len(t.args) == 1 and t.args[0].op == "star" and t.args[0].x is argvals and len(t.dstar) == 1 and t.dstar[0] is kw
     # --- notrace branch
-    if then.op == "if":
-        c = then.cond
-        nt_ok = c.op == "cmp" and c.opname == "In" and is_self(c.l) and c.r.op == "sub" and c.r.obj.op == "ref" and c.r.obj.ref.qual == "autograd.tracer.notrace_primitives" and is_ctor(c.r.idx)
-        ntr = strip_seq(then.then)
-        if nt_ok and is_reentry(ntr):
-            ctx.ob("A13.unbox", "wrapper:notrace -> re-enter the wrapper on the unboxed values, return plain", True, loc)
-        else:
-            ctx.fail("A13.unbox", "wrapper:notrace", f"{q}:notrace", loc, f"notrace branch is not `if f_wrapped in notrace_primitives[node type]: return f_wrapped(*argvals, **kwargs)`", "x * floor(x) / comparisons inside nested differentiation")
-        main = strip_seq(then.other)
-    else:
+    nt_cases = [c for c in traced if c.pol(is_notrace_test) is True]
+    main_cases = [c for c in traced if c.pol(is_notrace_test) is False]
+    loose = [c for c in traced if c.pol(is_notrace_test) is None]
+    if nt_cases and not loose and all(is_reentry(c.leaf) for c in nt_cases):
+        ctx.ob("A13.unbox", "wrapper:notrace -> re-enter the wrapper on the unboxed values, return plain", True, loc)
+    elif not nt_cases and not main_cases:
         ctx.fail("A13.unbox", "wrapper:notrace", f"{q}:notrace", loc, "no notrace branch in the wrapper", "floor/argmax/comparisons of traced values")
-        main = then
+        main_cases = traced
+    else:
+        ctx.fail("A13.unbox", "wrapper:notrace", f"{q}:notrace", loc, "notrace branch is not `if f_wrapped in notrace_primitives[node type]: return f_wrapped(*argvals, **kwargs)`", "x * floor(x) / comparisons inside nested differentiation")
+        main_cases = main_cases or loose
     # --- main path: new_box(ans, trace, node)
-    if not is_call_to(main, "autograd.tracer.new_box") or len(main.args) != 3:
-        ctx.fail("A13.unbox", "wrapper:rebox", f"{q}:rebox", loc, f"traced path does not return new_box(ans, trace, node) (found {str(main)[:80]})", "any traced primitive call")
-        return
-    ans, trc, nd = main.args
-    if is_reentry(ans):
-        ctx.ob("A13.unbox", "wrapper:ans = f_wrapped(*argvals, **kwargs) (re-entry handles lower trace levels)", True, loc)
-    else:
-        ctx.fail("A13.unbox", "wrapper:reentry", f"{q}:reentry", loc, f"ans is not computed by re-entering the wrapper on argvals (found {str(ans)[:80]}): calling f_raw directly drops the enclosing differentiation levels", "nested differentiation where an argument carries boxes of two levels")
-    if is_trace(trc):
-        ctx.ob("A12.top", "wrapper:answer boxed with the trace id of its top boxed arguments", True, loc)
-    else:
-        ctx.fail("A12.top", "wrapper:rebox-trace", f"{q}:rebox-trace", loc, f"the answer is boxed with {str(trc)[:60]} instead of the trace id returned by find_top_boxed_args", "an outer-level value used inside an inner differentiation gets the inner trace's id (perturbation confusion)")
-    # node = ctor(ans, f_wrapped, argvals, kwargs, argnums, parents)
-    good = nd.op == "call" and is_ctor(nd.fn) and len(nd.args) == 6
-    if good:
-        a = nd.args
-        def proj(t, which):
-            # tuple(<x> for argnum, box in boxed_args)
-            if not (t.op == "call" and t.fn.op == "ref" and t.fn.ref.qual == "builtins.tuple" and len(t.args) == 1 and t.args[0].op == "comp"):
-                return False
-            c = t.args[0]
-            if not is_boxed(c.src):
-                return False
-            e = c.elt
-            if which == "argnum":
-                return e.op == "sub" and e.obj.op == "iterelem" and e.idx.value == 0
-            return _attr_of(e, "_node") and e.obj.op == "sub" and e.obj.obj.op == "iterelem" and e.obj.idx.value == 1
-        roles = [a[0] is ans or same(a[0], ans), is_self(a[1]), a[2] is argvals, a[3] is kw, proj(a[4], "argnum"), proj(a[5], "parent")]
-        names = ["ans", "f_wrapped", "argvals", "kwargs", "argnums (argnum of each top box, in boxed_args order)", "parents (node of each top box, in the same order)"]
-        for okr, nm in zip(roles, names):
-            if okr:
-                ctx.ob("A13.align", f"wrapper:node constructor slot {nm}", True, loc)
-            else:
-                ctx.fail("A13.align", f"wrapper:node slot {nm}", f"{q}:node-slot:{nm.split(' ')[0]}", loc, f"node constructor argument for role '{nm}' is not what the Node classes expect", "a primitive with two differentiated arguments: cotangents are routed to the wrong parents / rules see wrong values")
-    else:
-        ctx.fail("A13.align", "wrapper:node ctor", f"{q}:node-ctor", loc, "the node is not built by node_constructor(ans, f_wrapped, argvals, kwargs, argnums, parents)", "any traced primitive call")
+    for c in main_cases:
+        main = c.leaf
+        if not is_call_to(main, "autograd.tracer.new_box") or len(main.args) != 3 or main.kw:
+            ctx.fail("A13.unbox", "wrapper:rebox", f"{q}:rebox", loc, f"traced path does not return new_box(ans, trace, node) (found {str(main)[:80]})", "any traced primitive call")
+            return
+        ans, trc, nd = main.args
+        if is_reentry(ans):
+            ctx.ob("A13.unbox", "wrapper:ans = f_wrapped(*argvals, **kwargs) (re-entry handles lower trace levels)", True, loc)
+        else:
+            ctx.fail("A13.unbox", "wrapper:reentry", f"{q}:reentry", loc, f"ans is not computed by re-entering the wrapper on argvals (found {str(ans)[:80]}): calling f_raw directly drops the enclosing differentiation levels", "nested differentiation where an argument carries boxes of two levels")
+        if is_trace(trc):
+            ctx.ob("A12.top", "wrapper:answer boxed with the trace id of its top boxed arguments", True, loc)
+        else:
+            ctx.fail("A12.top", "wrapper:rebox-trace", f"{q}:rebox-trace", loc, f"the answer is boxed with {str(trc)[:60]} instead of the trace id returned by find_top_boxed_args", "an outer-level value used inside an inner differentiation gets the inner trace's id (perturbation confusion)")
+        # node = ctor(ans, f_wrapped, argvals, kwargs, argnums, parents)
+        good = nd.op == "call" and is_ctor(nd.fn) and len(nd.args) == 6 and not nd.kw
+        if good:
+            a = nd.args
+            proj_num = lambda t: over_boxed(t, lambda e, num, box: num(e))
+            proj_par = lambda t: over_boxed(t, lambda e, num, box: _attr_of(e, "_node") and box(e.obj))
+            roles = [a[0] is ans or same(a[0], ans), is_self(a[1]), is_argvals(a[2]), a[3] is kw, proj_num(a[4]), proj_par(a[5])]
+            names = ["ans", "f_wrapped", "argvals", "kwargs", "argnums (argnum of each top box, in boxed_args order)", "parents (node of each top box, in the same order)"]
+            for okr, nm in zip(roles, names):
+                if okr:
+                    ctx.ob("A13.align", f"wrapper:node constructor slot {nm}", True, loc)
+                else:
+                    ctx.fail("A13.align", f"wrapper:node slot {nm}", f"{q}:node-slot:{nm.split(' ')[0]}", loc, f"node constructor argument for role '{nm}' is not what the Node classes expect", "a primitive with two differentiated arguments: cotangents are routed to the wrong parents / rules see wrong values")
+        else:
+            ctx.fail("A13.align", "wrapper:node ctor", f"{q}:node-ctor", loc, "the node is not built by node_constructor(ans, f_wrapped, argvals, kwargs, argnums, parents)", "any traced primitive call")
 
 
 def notrace_wrapper(ctx, world):
@@ -214,27 +248,25 @@ def notrace_wrapper(ctx, world):
         ctx.ob("A13.unbox", "notrace wrapper: f_raw(*map(getval, args), **kwargs)", True, loc)
     else:
         ctx.fail("A13.unbox", "notrace wrapper", f"{q}:body", loc, f"notrace_primitive does not call f_raw(*map(getval, args), **kwargs) (found {str(r)[:100]})", "shape/ndim/isinstance/type queries on traced values inside nested differentiation")
-    # getval = lambda x: getval(x._value) if isbox(x) else x
+    # getval(x) = getval(x._value) if isbox(x) else x   (lambda or def, either polarity)
     tm = world.repo.mod(TR)
     b = tm.top.get("getval")
     if not b:
         raise AnalysisError("tracer.getval vanished")
     gv = b[-1][1]
     ok = False
-    if isinstance(gv, ast.Lambda) and isinstance(gv.body, ast.IfExp):
-        p = gv.args.args[0].arg
-        body = gv.body
-        rec = isinstance(body.body, ast.Call) and isinstance(body.body.func, ast.Name) and body.body.func.id == "getval" and len(body.body.args) == 1
-        inner = rec and isinstance(body.body.args[0], ast.Attribute) and body.body.args[0].attr == "_value" and isinstance(body.body.args[0].value, ast.Name) and body.body.args[0].value.id == p
-        test = isinstance(body.test, ast.Call) and isinstance(body.test.func, ast.Name) and body.test.func.id == "isbox"
-        els = isinstance(body.orelse, ast.Name) and body.orelse.id == p
-        ok = bool(inner and test and els)
-    elif isinstance(gv, ast.FunctionDef):
-        ok = None
+    if isinstance(gv, (ast.Lambda, ast.FunctionDef)):
+        x = P("x")
+        from ..terms import Scope, T
+        res = world.ev.apply(T("closure", gv, tm, fnode=gv, scope=Scope(), bound=[], boundkw={}), [x], {})
+        cs = cases(unseq(res))
+        is_test = lambda a: is_call_to(a, "autograd.tracer.isbox") and len(a.args) == 1 and a.args[0] is x
+        def rec_ok(t):
+            return is_call_to(t, "autograd.tracer.getval") and len(t.args) == 1 and _attr_of(t.args[0], "_value") and t.args[0].obj is x
+        ok = bool(cs) and all((c.pol(is_test) is True and rec_ok(c.leaf)) or (c.pol(is_test) is False and c.leaf is x) for c in cs)
+        ok = ok and any(c.pol(is_test) is True for c in cs) and any(c.pol(is_test) is False for c in cs)
     if ok:
         ctx.ob("A13.unbox", "getval strips boxes recursively", True, loc_of(tm, gv))
-    elif ok is None:
-        ctx.ob("A13.unbox", "getval strips boxes recursively", None, loc_of(tm, gv))
     else:
         ctx.fail("A13.unbox", "getval", "autograd.tracer.getval", loc_of(tm, gv), "getval is not `getval(x._value) if isbox(x) else x`", "a value boxed at two levels passed to isinstance/shape/notrace functions")
 
